@@ -38,6 +38,15 @@ def _closure(m, raw, args):
     return m.run(fn, args)
 
 
+def _osval(v):
+    v = deref(v)
+    for _ in range(6):
+        if isinstance(v, BoxObj): v = v.cell[0]
+        elif isinstance(v, Ptr): v = v.load()
+        else: break
+    return v
+
+
 def explore(funcs, index, enums):
     res = {"kind": "do_xargs wiring", "paths": 0, "checks": 0, "violations": [], "unsupported": {}, "samples": []}
     has = {k: z3.Bool("has_" + k) for k in ("n", "L", "s", "I", "d", "null", "x", "r", "a", "cmd")}
@@ -176,6 +185,8 @@ def explore(funcs, index, enums):
            "process_input": process_input, "<Option<usize> as PartialOrd>::gt": opt_gt,
            "Option::as_ref": lambda m, a: (Some(Ptr(deref(a[0]).fields, 0)) if deref(a[0]).variant == "Some" else NONE()),
            "<Option<String> as Clone>::clone": lambda m, a: deref(a[0]), "Option::is_none": lambda m, a: deref(a[0]).variant == "None",
+           "OsStr::to_string_lossy": lambda m, a: a[0], "<Cow as Deref>::deref": lambda m, a: a[0], "str::chars": lambda m, a: a[0],
+           "<Chars as Iterator>::count": lambda m, a: _osval(a[0]).length,          # ASCII words here: characters = bytes (c04_batching makes them differ)
            "RangeInclusive::new": lambda m, a: Struct("RangeInclusive", [a[0], a[1]]),
            "_eprint": lambda m, a: UNIT, "io::_eprint": lambda m, a: UNIT, "Arguments::from_str": lambda m, a: Opaque("fmt")}
     m = Machine(funcs, index, enums, models, natives=nat, max_steps=2000000)
